@@ -52,7 +52,7 @@ struct DynCase {
     int base = 8, bl = 0, il = 0;
     std::vector<std::pair<uint64_t, uint64_t>> bulk; // (ukey, vid), sorted by key, possibly repeated keys
     std::vector<DynOp> ops;
-    std::string family;
+    std::string family, family_override;
 };
 
 inline int ilog2c(size_t n) { return n <= 1 ? 0 : 64 - __builtin_clzll(n - 1); }
@@ -83,6 +83,21 @@ DynCase gen_dyn_case(Rng &r, bool thorough) {
     auto key = [&](uint64_t i) { return kbase + std::min(i, keyspace); };
     // bulk load
     size_t nb = r.chance(1, 3) ? 0 : r.below(std::min<uint64_t>(keyspace * 2, thorough ? 3000 : 300) + 1);
+    if (sizeof(K) >= 4 && r.chance(1, 30)) {
+        // a level of >= 2^15 items that owns a PGM-index: the index is built by the chunked, multi-threaded builder
+        // (thread count = this worker's OMP_NUM_THREADS); dense keys with a handful of far-away keys at the top
+        dc.family_override = "big_bulk";
+        dc.il = min_level + 1;
+        size_t n = (size_t(1) << 15) + r.below(size_t(1) << 15);
+        uint64_t step = r.pick<uint64_t>({1, 3, 10});
+        keyspace = std::min<uint64_t>(R, n * step + (uint64_t(1) << 30));
+        kbase = r.chance(1, 2) ? 0 : R - keyspace;
+        size_t tail = 1 + r.below(24);
+        for (size_t i = 0; i + tail < n; ++i) dc.bulk.emplace_back(kbase + i * step + r.below(step), r.below(1000));
+        for (size_t i = 0; i < tail; ++i) dc.bulk.emplace_back(kbase + keyspace - (tail - i) * (1 + r.below(1000)) * 1000, r.below(1000));
+        nb = 0;
+        nops = std::min<size_t>(nops, 120);
+    }
     for (size_t i = 0; i < nb; ++i) dc.bulk.emplace_back(key(r.below(keyspace + 1)), r.below(1000));
     std::stable_sort(dc.bulk.begin(), dc.bulk.end(), [](auto &a, auto &b) { return a.first < b.first; });
     if (r.chance(1, 2)) // no repeated keys in half of the bulk loads
@@ -90,7 +105,7 @@ DynCase gen_dyn_case(Rng &r, bool thorough) {
     int pattern = int(r.below(7));
     uint64_t seq = r.below(keyspace + 1);
     static const char *names[] = {"random", "ascending", "descending", "insert_then_erase_all", "erase_only", "shadowing", "hot_keys"};
-    dc.family = names[pattern];
+    dc.family = dc.family_override.empty() ? names[pattern] : dc.family_override;
     for (size_t o = 0; o < nops; ++o) {
         DynOp op{'I', 0, r.below(1000)};
         switch (pattern) {
@@ -357,7 +372,8 @@ void dyn_case(Ctx &c) {
         if (probe.size() > 1500) { // sample
             std::vector<K> s2;
             for (size_t i = 0; i < probe.size(); i += probe.size() / 1500 + 1) s2.push_back(probe[i]);
-            s2.push_back(probe.back());
+            for (size_t i = probe.size() - 40; i < probe.size(); ++i) s2.push_back(probe[i]); // the top end, key by key
+            for (size_t i = 0; i < 20; ++i) s2.push_back(probe[i]);
             probe.swap(s2);
         }
         std::vector<K> qs;
